@@ -1,5 +1,5 @@
 (** C18 — Build events and target output follow a well-formed protocol.  Statements only. *)
-From Dawn Require Import Base.Bytes Build.Model Build.Proofs Build.Proofs_Fresh Build.Proofs_Noop Build.LineWriter.
+From Dawn Require Import Base.Bytes Build.Model Build.Proofs Build.Proofs_Fresh Build.Proofs_Noop Build.LineWriter Build.Stream Build.Proofs_Stream.
 
 (** In every build (any mode, any failure pattern, also one cut short by a crash) the events of one label are:
     nothing (never visited, or a dependency failed with an ordinary error), one up-to-date event, evaluating followed by
@@ -36,9 +36,42 @@ Theorem evaluating_iff_body_runs :
 Proof. exact Proofs_Noop.evaluating_iff_body_runs. Qed.
 Print Assumptions evaluating_iff_body_runs.
 
-(** NOT YET PROVED as theorems (decided on the implementation by the harness oracles of the same names):
-    run_done_once_last (RunDone is emitted by Project.Run after runner.Run returns: outside the engine model),
-    prints_inside_window (Print events are produced by the body, outside the model). *)
+(** The complete stream of a build ([run_stream], Build/Stream.v): the target events, after each evaluating event of a
+    body that ran the lines its line writer makes of what the body wrote ([out]: any output, any chunking), and the final
+    run-done.  Run-done is delivered exactly once, as the very last event, with the result of the requested target. *)
+Theorem run_done_once_last :
+  forall out c w l,
+    exists pre, run_stream out c w l = pre ++ [SRunDone (o_res (build c w l))] /\
+                forallb (fun s => negb (is_run_done s)) pre = true.
+Proof. exact Proofs_Stream.run_done_once_last. Qed.
+Print Assumptions run_done_once_last.
+
+(** Output is delivered as lines exactly once, in order, between evaluating and completion, whatever the chunking of the
+    writes: in every build that is not killed the stream of one label is nothing, one up-to-date event, a lone failed
+    event, or evaluating, then -- iff the body ran -- exactly the lines of the concatenation of what it wrote, then exactly
+    one succeeded or failed event (a failing body's unterminated last line is delivered before its failure event). *)
+Theorem output_inside_window :
+  forall out c w l0 x,
+    c_crashed c = false ->
+    let o := build c w l0 in
+    let lines := if mem x (o_ran o) then map (SPrint x) (lines_of (concat (out x))) else [] in
+    sevents_of x (run_stream out c w l0) = [] \/
+    sevents_of x (run_stream out c w l0) = [SEv (EUpToDate x)] \/
+    sevents_of x (run_stream out c w l0) = [SEv (EFailed x)] \/
+    sevents_of x (run_stream out c w l0) = SEv (EEvaluating x) :: lines ++ [SEv (ESucceeded x)] \/
+    sevents_of x (run_stream out c w l0) = SEv (EEvaluating x) :: lines ++ [SEv (EFailed x)].
+Proof. exact Proofs_Stream.output_inside_window. Qed.
+Print Assumptions output_inside_window.
+
+(** non-vacuity: target 1 writes "ab", "\nc" and fails; target 2 is cut off below it *)
+Example stream_example :
+  let pr := [(1, Fn [] [10] [100] 1 7 false); (2, Fn [1] [] [101] 2 8 false); (10, Src 50)] in
+  let w := mkWorld pr [(50, CLit 1)] [] 1 0 [] [] in
+  let c := mkCfg false false [1] false [] [] [] in
+  run_stream (fun l => if l =? 1 then [[97; 98]; [10; 99]] else []) c w 2 =
+  [SEv (EEvaluating 10); SEv (ESucceeded 10); SEv (EEvaluating 1); SPrint 1 [97; 98]; SPrint 1 [99]; SEv (EFailed 1);
+   SRunDone RFailDep].
+Proof. vm_compute. reflexivity. Qed.
 
 Example lines_example :
   lw_run [] [[97; 98]; [10; 99]; [10; 10; 100]] = ([], [[97; 98]; [99]; []; [100]]).
